@@ -24,7 +24,7 @@ RECURSIVE LitCat(_)
 LitCat(s) == IF Len(s) = 1 THEN ULit(s[1]) ELSE UCat(ULit(s[1]), LitCat(Tail(s)))
 
 Opt(ci, smart, word, line, crlf, nul, inv) ==
-  [ci |-> ci, smart |-> smart, word |-> word, line |-> line, crlf |-> crlf, nul |-> nul, inv |-> inv]
+  [ci |-> ci, smart |-> smart, word |-> word, line |-> line, crlf |-> crlf, nul |-> nul, inv |-> inv, dotall |-> FALSE]
 Plain == Opt(FALSE, FALSE, FALSE, FALSE, FALSE, FALSE, FALSE)
 OptSets == { Plain, [Plain EXCEPT !.ci = TRUE], [Plain EXCEPT !.smart = TRUE], [Plain EXCEPT !.word = TRUE],
              [Plain EXCEPT !.line = TRUE], [Plain EXCEPT !.inv = TRUE], [Plain EXCEPT !.crlf = TRUE],
